@@ -700,7 +700,7 @@ theorem stimIndices_spec (l : Label) (n : Nat) (hw : wfLabel l n = true) :
   · rw [List.getElem?_eq_none (by simp [length_stimFold]; omega),
       List.getElem?_eq_none (by simp [dense]; omega)]
 
-/-! ## the shared Pauli table -/
+/-! ## the Pauli table is never changed by a history -/
 
 theorem labelFactor_init (l : Label) : labelFactor SparseTable.init l = 1 := by
   have : ∀ k : Int, l.foldl (fun k x => k * SparseTable.init.factor x.2) k = k := by
@@ -717,57 +717,36 @@ theorem labelFactor_init (l : Label) : labelFactor SparseTable.init l = 1 := by
   exact this 1
 
 theorem handleFactor_getLabel_init (l : Label) (n : Nat) :
-    handleFactor SparseTable.init (getLabel SparseTable.init l n) = 1 := by
-  unfold getLabel
-  split
-  · split
-    · rename_i p hp
-      rcases hp with h | h | h <;> subst h <;> rfl
-    · simp [handleFactor, labelFactor_init]
-  · simp [handleFactor, labelFactor_init]
+    handleFactor (getLabel SparseTable.init l n) = 1 := by
+  simp [getLabel, handleFactor, labelFactor_init]
 
-theorem table_step_of_noShared (s : SparseSession) (o : SparseOp) (rest : List SparseOp)
-    (h : noSharedScale s (o :: rest) = true) :
-    (s.step o).table = s.table ∧ noSharedScale (s.step o) rest = true := by
+theorem table_step (s : SparseSession) (o : SparseOp) : (s.step o).table = s.table := by
   cases o with
-  | get l n =>
-    simp only [noSharedScale] at h
-    exact ⟨rfl, h⟩
+  | get l n => rfl
   | scale i k =>
-    simp only [noSharedScale, Bool.and_eq_true] at h
-    refine ⟨?_, h.2⟩
-    have h1 := h.1
     simp only [SparseSession.step]
     cases hh : s.handles[i]? with
-    | none => simp
-    | some hd =>
-      cases hd with
-      | fresh k0 l n => simp
-      | shared p => rw [hh] at h1; simp at h1
+    | none => rfl
+    | some hd => cases hd with | fresh k0 l n => rfl
 
-theorem table_run_of_noShared (s : SparseSession) (ops : List SparseOp) (h : noSharedScale s ops = true) :
-    (s.run ops).table = s.table := by
+theorem table_run (s : SparseSession) (ops : List SparseOp) : (s.run ops).table = s.table := by
   induction ops generalizing s with
   | nil => rfl
   | cons o rest ih =>
-    have := table_step_of_noShared s o rest h
     simp only [SparseSession.run, List.foldl_cons]
-    have e := ih (s.step o) this.2
+    have e := ih (s.step o)
     simp only [SparseSession.run] at e
-    rw [e, this.1]
+    rw [e, table_step]
 
-theorem noShared_prefix (s : SparseSession) (pre post : List SparseOp) (h : noSharedScale s (pre ++ post) = true) :
-    noSharedScale s pre = true := by
-  induction pre generalizing s with
-  | nil => rfl
-  | cons o rest ih =>
-    cases o with
-    | get l n =>
-      simp only [List.cons_append, noSharedScale] at h ⊢
-      exact ih _ h
-    | scale i k =>
-      simp only [List.cons_append, noSharedScale, Bool.and_eq_true] at h ⊢
-      exact ⟨h.1, ih _ h.2⟩
+/-- an in-place operation on one result leaves every other result as it was -/
+theorem scale_other_handle (s : SparseSession) (i j : Nat) (k : Int) (hij : i ≠ j) :
+    (s.step (.scale i k)).handles[j]? = s.handles[j]? := by
+  simp only [SparseSession.step]
+  cases hh : s.handles[i]? with
+  | none => rfl
+  | some hd =>
+    cases hd with
+    | fresh k0 l n => simp [List.getElem?_set_ne hij]
 
 /-! ## the sorted item list is a canonical form (equal content ⇒ equal key) -/
 
